@@ -609,13 +609,24 @@ class Body:
             on2 = self.trace(on, through) if through else on
             if on2.kind == 'call' and on2.key == call.bb:
                 r.append(sw)
+            elif on2.kind == 'local':
+                # a user variable assigned on several paths, each time directly by a call
+                ds = self.defs.get(on2.key, [])
+                if ds and all(d[1] == 'call' and not d[2]['dest']['p'] for d in ds) and \
+                        any(d[0] == call.bb for d in ds):
+                    r.append(sw)
         return r
 
-    def branch(self, call, label, through=(), projs=None):
+    def branch(self, call, label, through=(), projs=None, primary=True):
         """Edges taken when `call`'s result has `label`; requires a switch directly on the result
-        (projs None => any projection list that has no field component)."""
+        (projs None => any projection list that has no field component).  primary: ignore
+        re-tests of the same value that are dominated by an earlier test (drop-flag style)."""
         out = []
-        for sw in self.switches_on_call(call, through):
+        sws = self.switches_on_call(call, through)
+        if primary:
+            sws = [s_ for s_ in sws
+                   if not any(o is not s_ and self.dominates(o.bb, s_.bb) for o in sws)]
+        for sw in sws:
             if projs is None and any(p.startswith('.') for p in sw.on.projs):
                 continue
             if projs is not None and tuple(sw.on.projs) != tuple(projs):
